@@ -159,7 +159,7 @@ def worker(kp, job):
 def run(chk):
     b = core.standard_build(chk)
     model = core.Model() if b.modelrun_ok else None
-    full = chk.tier == 'thorough' or bool(b.drift) or not b.proof_ok
+    full = chk.tier == 'thorough' or bool(b.drift) or not b.proof_ok or not b.modelrun_ok
     n = core.budget(chk, full, 70, 500)
     chk.rule = ('generated documents (1-4 spines, splits and joins, global comments before / inside / after the spines) x '
                 '11 category filters (none, the empty list, singles, random sets) x comment keys; non-trivial = distinct (text, filter, key)')
